@@ -95,3 +95,140 @@ package asn1
 //@ ensures [one-and-two-octet-values] err == nil ==> (offset == initOffset + 1 ==> ret == int(bytes[initOffset])) && (offset == initOffset + 2 ==> ret == int(bytes[initOffset] & 127) * 128 + int(bytes[initOffset + 1]))
 //@ ensures [minimal-never-a-leading-0x80] err == nil ==> bytes[initOffset] != 128
 //@ ensures [truncated-input-is-an-error] initOffset >= len(bytes) ==> err != nil
+
+// OBJECT IDENTIFIER: first arc pair unpacked from the first base-128 integer (X.690 8.19.4), then
+// one arc per base-128 integer until the content is exhausted; empty content only in lax mode.
+//@ func parseObjectIdentifier
+//@ props C10
+//@ modifies nothing
+//@ frame-trusted writes only the arc slice it allocates
+//@ site parseBase128Int#1 as first
+//@ site parseBase128Int#2 as next
+//@ loop 1 invariant 2 <= i && i <= len(s) && len(s) == len(bytes) + 1 && 0 <= offset && offset <= len(bytes) && i <= offset + 1 && err == nil
+//@ loop 1 invariant 0 <= s[0] && s[0] <= 2 && (s[0] < 2 ==> 0 <= s[1] && s[1] < 40) && (first.res0 < 80 ==> s[0] * 40 + s[1] == first.res0) && (first.res0 >= 80 ==> s[0] == 2 && s[1] == first.res0 - 80)
+//@ ensures [empty-content-only-in-lax-mode] len(bytes) == 0 ==> (err == nil <==> lax) && len(s) == 0
+//@ ensures [a-malformed-arc-fails-the-whole-identifier] (first.called && first.res2 != nil) || (next.called && next.res2 != nil) ==> err != nil
+//@ ensures [at-least-two-arcs-first-one-at-most-two] err == nil && len(bytes) > 0 ==> len(s) >= 2 && 0 <= s[0] && s[0] <= 2 && (s[0] < 2 ==> 0 <= s[1] && s[1] < 40) && (first.res0 < 80 ==> s[0] * 40 + s[1] == first.res0) && (first.res0 >= 80 ==> s[0] == 2 && s[1] == first.res0 - 80)
+//@ at first assert [first-arc-pair-from-the-start-of-the-content] first.bytes == bytes && first.initOffset == 0
+//@ at next assert [next-arc-where-the-previous-one-ended] next.bytes == bytes && next.initOffset == offset
+
+// Identifier and length octets (X.690 8.1.2, 8.1.3) in DER: long-form tag numbers are minimal and
+// at least 31, lengths are definite, minimal, below 2^31, long form only for 128 and more.
+//@ func parseTagAndLength
+//@ props C10
+//@ pure
+//@ site parseBase128Int#1 as tagnum
+//@ requires 0 <= initOffset
+//@ loop 1 invariant 0 <= i && i <= numBytes && numBytes <= 127 && initOffset < offset && offset - initOffset >= 2 && offset <= len(bytes) && 0 <= ret.length && (i >= 1 ==> ret.length >= 1) && ret.length < 2147483648 && err == nil && ret.class == int(bytes[initOffset] >> 6) && ret.isCompound == (bytes[initOffset] & 32 == 32) && (bytes[initOffset] & 31 != 31 ==> ret.tag == int(bytes[initOffset] & 31)) && (bytes[initOffset] & 31 == 31 ==> ret.tag >= 31)
+//@ loop 1 invariant bytes[initOffset] & 31 != 31 ==> offset == initOffset + 2 + i && numBytes == int(bytes[initOffset + 1] & 127) && numBytes >= 1 && bytes[initOffset + 1] & 128 == 128 && (i >= 1 ==> bytes[initOffset + 2] != 0) && (i == 0 ==> ret.length == 0)
+//@ ensures [at-least-two-octets-consumed-inside-the-input] err == nil ==> initOffset + 2 <= offset && offset <= len(bytes)
+//@ ensures [class-and-constructed-bit-from-the-identifier-octet] err == nil ==> ret.class == int(bytes[initOffset] >> 6) && ret.isCompound == (bytes[initOffset] & 32 == 32)
+//@ ensures [low-tag-numbers-inline-high-ones-minimal] err == nil ==> (bytes[initOffset] & 31 != 31 ==> ret.tag == int(bytes[initOffset] & 31)) && (bytes[initOffset] & 31 == 31 ==> tagnum.called && ret.tag == tagnum.res0 && ret.tag >= 31)
+//@ ensures [length-definite-and-below-2-to-the-31] err == nil ==> 0 <= ret.length && ret.length < 2147483648
+//@ ensures [empty-input-is-an-error] initOffset >= len(bytes) ==> err != nil
+//@ ensures [short-form-length-is-the-octet-itself] err == nil && bytes[initOffset] & 31 != 31 && bytes[initOffset + 1] & 128 == 0 ==> ret.length == int(bytes[initOffset + 1]) && offset == initOffset + 2
+//@ ensures [long-form-only-for-lengths-of-128-and-more-without-leading-zero] err == nil && bytes[initOffset] & 31 != 31 && bytes[initOffset + 1] & 128 == 128 ==> ret.length >= 128 && bytes[initOffset + 1] != 128 && bytes[initOffset + 2] != 0
+//@ at tagnum assert [tag-number-follows-the-identifier-octet] tagnum.bytes == bytes && tagnum.initOffset == initOffset + 1
+
+//@ func couldBeT61
+//@ props C10
+//@ arith int
+//@ pure
+//@ loop 1 invariant forall j int :: 0 <= j && j <= rangeindex ==> bytes[j] != 0
+//@ ensures [a-nul-octet-is-never-t61] result ==> (forall j int :: 0 <= j && j < len(bytes) ==> bytes[j] != 0)
+
+// PrintableString: strict mode accepts exactly the PrintableString alphabet (plus '*' and '&');
+// lax mode accepts everything strict mode accepts, with the same text, and additionally only
+// contents that read as ISO 8859-1 or T.61.
+//@ func parsePrintableString
+//@ props C10
+//@ arith int
+//@ pure
+//@ site isPrintable#1 as ip
+//@ site couldBeISO8859_1#1 as iso
+//@ site couldBeT61#1 as t61
+//@ ensures [strict-mode-rejects-any-character-outside-the-alphabet] !lax && ip.called && !ip.res ==> err != nil
+//@ ensures [lax-mode-adds-only-iso-8859-1-and-t61-contents] lax && ip.called && !ip.res && err == nil ==> iso.called && (iso.res || (t61.called && t61.res))
+//@ at ip assert [every-octet-is-tested-with-the-tolerant-alphabet] ip.b == bytes[rangeindex + 1] && ip.asterisk && ip.ampersand
+//@ at iso assert [guesses-over-the-whole-content] iso.bytes == bytes
+
+// Unmarshal: on failure nothing of the input is handed back; on success the remainder is the input
+// after the first value.
+//@ func UnmarshalWithParams
+//@ props C10
+//@ site parseField#1 as pf
+//@ site parseFieldParameters#1 as pp
+//@ ensures [non-pointer-or-nil-target-is-an-error] result1 == nil ==> pf.called && pf.res1 == nil
+//@ ensures [failure-returns-no-remainder] pf.called && pf.res1 != nil ==> result0 == nil && result1 == pf.res1
+//@ at pf assert [decodes-from-the-start-with-the-given-parameters] pf.bytes == b && pf.initOffset == 0 && pf.params == pp.res
+//@ at pp assert [parameters-from-the-given-tag-string] pp.str == params
+
+// The reflective walker: not verified for what it stores (reflection), but every leaf decoder and every
+// recursive descent it reaches must be handed the lax flag of the field being decoded, so that lax
+// mode "propagates to all nested fields" and strict mode stays strict below.
+//@ func parseField
+//@ props C10
+//@ may panic
+//@ modifies nothing
+//@ frame-trusted writes only through the reflect.Value it is given (reflection: outside the memory model)
+//@ requires 0 <= initOffset
+//@ site parsePrintableString#1 as ps1
+//@ site parseInt64#1 as i64a
+//@ site parseObjectIdentifier#1 as oid1
+//@ site parseObjectIdentifier#2 as oid2
+//@ site parseInt32#1 as i32a
+//@ site parseBigInt#1 as big1
+//@ site parseInt32#2 as i32b
+//@ site parseInt64#2 as i64b
+//@ site parseField#1 as rec
+//@ site parseSequenceOf#1 as seq
+//@ site parsePrintableString#2 as ps2
+//@ at ps1 assert [lax-flag-handed-on] ps1.lax == params.lax
+//@ at i64a assert [lax-flag-handed-on] i64a.lax == params.lax
+//@ at oid1 assert [lax-flag-handed-on] oid1.lax == params.lax
+//@ at oid2 assert [lax-flag-handed-on] oid2.lax == params.lax
+//@ at i32a assert [lax-flag-handed-on] i32a.lax == params.lax
+//@ at big1 assert [lax-flag-handed-on] big1.lax == params.lax
+//@ at i32b assert [lax-flag-handed-on] i32b.lax == params.lax
+//@ at i64b assert [lax-flag-handed-on] i64b.lax == params.lax
+//@ loop 1 invariant 0 <= innerOffset
+//@ at rec assert [struct-fields-inherit-the-lax-flag] rec.params.lax == params.lax
+//@ at seq assert [sequence-elements-inherit-the-lax-flag] seq.lax == params.lax
+//@ at ps2 assert [lax-flag-handed-on] ps2.lax == params.lax
+//@ ensures [consumes-a-prefix-of-the-input] err == nil ==> initOffset <= offset && offset <= len(bytes)
+
+//@ func parseSequenceOf
+//@ props C10
+//@ may panic
+//@ modifies nothing
+//@ frame-trusted writes only the slice value it makes through reflection
+//@ site parseField#1 as el
+//@ loop 1 invariant 0 <= offset
+//@ loop 2 invariant 0 <= offset
+//@ at el assert [every-element-is-decoded-with-the-callers-lax-flag] el.params.lax == lax
+
+// ---- C10: DER leaf encoders ------------------------------------------------------------------------
+
+// INTEGER content length: the least number of octets whose two's-complement range holds the value.
+//@ func (int64Encoder).Len
+//@ props C10
+//@ pure
+//@ loop 1 invariant 1 <= n && n <= 8 && i == old(i) >> (8 * uint64(n - 1)) && (n >= 2 ==> old(i) >> (8 * uint64(n - 2)) > 127)
+//@ loop 2 invariant 1 <= n && n <= 8 && i == old(i) >> (8 * uint64(n - 1)) && i <= 127 && (n >= 2 ==> old(i) >> (8 * uint64(n - 2)) > 127 || old(i) >> (8 * uint64(n - 2)) < -128)
+//@ ensures [between-one-and-eight-octets] 1 <= result && result <= 8
+//@ ensures [the-value-fits] result == 8 || (-(int64(1) << (8 * uint64(result) - 1)) <= i && i < int64(1) << (8 * uint64(result) - 1))
+//@ ensures [no-shorter-length-fits] result == 1 || !(-(int64(1) << (8 * uint64(result - 1) - 1)) <= i && i < int64(1) << (8 * uint64(result - 1) - 1))
+
+//@ func lengthLength
+//@ props C10
+//@ pure
+//@ requires 0 <= i
+//@ loop 1 invariant 1 <= numBytes && numBytes <= 8 && i == old(i) >> (8 * uint64(numBytes - 1)) && i >= 0 && (numBytes >= 2 ==> old(i) >> (8 * uint64(numBytes - 2)) > 255)
+//@ ensures [least-number-of-octets-for-the-length] 1 <= numBytes && numBytes <= 8 && (numBytes == 8 || i < int(1) << (8 * uint64(numBytes))) && (numBytes == 1 || i >= int(1) << (8 * uint64(numBytes - 1)))
+
+//@ func base128IntLength
+//@ props C10
+//@ pure
+//@ requires 0 <= n
+//@ loop 1 invariant 0 <= l && l <= 9 && i == n >> (7 * uint64(l)) && i >= 0 && (l == 0 ==> i == n) && (l >= 1 ==> n >> (7 * uint64(l - 1)) > 0)
+//@ ensures [least-number-of-seven-bit-groups] 1 <= result && result <= 9 && (result == 9 || n >> (7 * uint64(result)) == 0) && (result == 1 || n >> (7 * uint64(result - 1)) > 0)
